@@ -43,6 +43,8 @@ CHECKS["C16"] = dict(engine="det", design="4/C16", technique="runtime monitor: f
     text="Exploration. Reload-heavy histories: new configurations from the same grammar replace the current one at random points of running histories; every reload and every later step is judged (state preserved, settings applied, draining semantics, queues removed only when empty).")
 CHECKS["C17"] = dict(engine="det", design="4/C17", technique="runtime monitor: every application submission judged against the pre-step world by a reference evaluator of the rule chain (three-valued) plus necessary conditions (leaf, not draining, ACL of queue or ancestor, create flag, valid name parts, parent not a leaf, child template, recovery queue only when forced, rejection has a reason and leaves no trace)",
     text="Exploration of inputs x configurations. Generated rule chains, ACL layouts and child templates on the real core, with a reload that turns queues draining; thousands of submissions (users, groups, tags, requested names incl. invalid and the recovery name, forced or not) are judged one by one.")
+CHECKS["C12"] = dict(engine="det", design="4/C12", technique="crash-point monitor: two cores per case; the first is stopped at a protocol-quiescent point of a seeded history, the second is fed the shim's view only in a seeded order; oracle = no rejection + equality of per-node/queue/application/user totals + capacity/quota/accounting oracles on 30 further operations",
+    text="Exploration of crash points x replay orders. Every case stops the real core at a quiescent point of a seeded history (gang applications, foreign allocations, RM-bound allocations, reloads that lower quotas), starts a new core and replays nodes, force-created applications, bound allocations and outstanding asks in a seeded order; any rejection, any difference in totals and any violation in the scheduling that follows is reported.")
 CHECKS["C13"] = dict(engine="det", design="4/C13", technique="hostile-input monitor: generated SI messages injected into reachable states in child processes; every message logged before sending; oracle = process alive + barrier returns + matching rejection + ledger snapshot unchanged + conservation",
     note="Trusted: the harness; the generator's knowledge of which items are invalid by the protocol's own rules. No nil list elements / nil map values (excluded by the property).",
     text="Exploration of inputs x states. 24 classes of hostile or malformed SI messages are injected after seeded legal prefixes; a dead worker is a violation whose witness is the last logged message, a barrier that does not return within 30 s is a hang, invalid items must be answered with the matching rejection and leave the ledger snapshot identical, every message must leave the accounting consistent.")
